@@ -1054,8 +1054,23 @@ void Analyser::AnalyserImpl::analyseNode(const XmlNodePtr &node,
         // Token elements.
 
     } else if (node->isMathmlElement("ci")) {
-        auto variableName = nonCommentChildNode(node, 0)->convertToStrippedString();
+        auto variableName = (nonCommentChildCount(node) != 0) ? nonCommentChildNode(node, 0)->convertToStrippedString() : std::string();
         auto variable = component->variable(variableName);
+
+        if (variable == nullptr) {
+            // This cannot happen with a model that has passed validation, but
+            // make sure that we never work on a null variable.
+
+            auto issue = Issue::IssueImpl::create();
+
+            issue->mPimpl->setDescription("Variable '" + variableName + "' in component '" + component->name() + "' is referenced in an equation, but it is not defined anywhere.");
+            issue->mPimpl->mItem->mPimpl->setComponent(component);
+
+            addIssue(issue);
+
+            return;
+        }
+
         // Note: we always have a variable. Indeed, if we were not to have one,
         //       it would mean that `variableName` is the name of a variable
         //       that is referenced in an equation, but not defined anywhere,
